@@ -23,7 +23,8 @@ Record cfg := mkCfg {
   c_vis_unless_transient : bool; (* T3: Live.stop forces "visible" only when not transient *)
   c_restores_ovf : bool;    (* T3: Live.stop puts the user's overflow mode back after its last refresh *)
   c_resets_shape : bool;    (* T3: stop() forgets the shape it drew (so that a later start() erases nothing) *)
-  c_final_room : bool       (* T3: _LiveRender crops the last frame of a transient display to H-1 rows *)
+  c_final_room : bool;      (* T3: _LiveRender crops the last frame of a transient display to H-1 rows *)
+  c_prog_crop : bool        (* T3: live_render.LiveRender crops what it renders to the page height *)
 }.
 
 Record st := mkSt {
@@ -104,6 +105,12 @@ Definition progress_lines (W : Z) (sh : option (Z * Z)) (ls : list str) : list s
   let '(w, h) := grow_shape W sh (table_width ls) (zlen ls) in
   (map (pad_to w) ls ++ repeat (py_repeat SP w) (Z.to_nat (h - zlen ls)), (w, h)).
 
+(* what LiveRender gets from render_lines for a Progress table: every line padded to the column
+   width; cropped to the page height when the code does so *)
+Definition progress_rows (crop : bool) (H : Z) (ls : list str) : list str :=
+  let rows := map (pad_to (table_width ls)) ls in
+  if crop then firstn (Z.to_nat H) rows else rows.
+
 (* ---- state updates ---- *)
 Definition emit (s : st) (x : str) : st :=
   mkSt (started s) (hooks s) (redir s) (ovf_now s) (shape s) (cur s) (lr s) (nrender s) (nbuild s)
@@ -152,7 +159,7 @@ Definition max_height (c : cfg) (s : st) : Z :=
 
 (* the lines the live renderable yields now, and the shape it records *)
 Definition frame_lines (c : cfg) (s : st) : list str * (Z * Z) :=
-  if c_progress c then progress_lines (c_W c) (shape s) (lr s)
+  if c_progress c then progress_lines (c_W c) (shape s) (progress_rows (c_prog_crop c) (c_H c) (lr s))
   else let ls := fit_live (ovf_now s) (c_W c) (max_height c s) (cur s) in (ls, (maxw ls, zlen ls)).
 
 (* Console.print of some lines / log / print(Control("")) with the render hooks applied:
@@ -251,4 +258,5 @@ Definition cfg_today (progress transient : bool) (o : ovf) (W H : Z) (fr fb : op
   mkCfg progress transient o W H fr fb progress_start_guarded live_stop_visible_unless_transient
         live_stop_restores_overflow
         (if progress then progress_stop_resets_shape else live_stop_resets_shape)
-        live_transient_final_room.
+        live_transient_final_room
+        live_render_crops_to_page.
